@@ -145,12 +145,28 @@ pub fn gen_c16(rng: &mut Rng, i: u64, tier: Tier) -> Script {
         0..=5 => {
             let mut s = Script::new("C16", "sum");
             s.set("kind", rng.below(4) as i64);
-            let n = sum_len(rng);
-            let data = match rng.below(4) {
+            let mut n = sum_len(rng);
+            let mut data = match rng.below(4) {
                 0 => vec![0xFFu8; n],
                 1 => vec![0u8; n],
                 _ => rng.bytes(n),
             };
+            if s.c("kind") % 2 == 0 && rng.chance(1, 15) {
+                // a prefix whose Adler-32 is a special value (0, 1, a zero half ...) is the seed of the next update
+                let (ta, tb) = crate::gen::adler_special(rng);
+                let pl = rng.pick(&[0usize, 5, 300]);
+                let t = crate::gen::adler_target(rng, ta, tb, pl);
+                let tl = t.len();
+                data.truncate(60);
+                let mut d2 = t;
+                d2.extend_from_slice(&data);
+                data = d2;
+                n = data.len();
+                s.ops.push(vec![tl as i64 - rng.pick(&[0i64, 0, 1])]);
+                s.ops.push(vec![rng.pick(&[0i64, 1, 1, 5])]);
+                s.set_blob("data", data);
+                return s;
+            }
             if n <= 700 && rng.chance(1, 3) {
                 s.set("family", 1);
             } else if rng.chance(1, 10) {
@@ -179,6 +195,12 @@ pub fn gen_c16(rng: &mut Rng, i: u64, tier: Tier) -> Script {
         6..=8 => {
             // compressor running checksum under schedules: zlib format or C-API style flags
             let mut s = crate::props_pipe::gen_c02(rng, u64::MAX, tier);
+            if rng.chance(1, 25) {
+                // a fresh script: the one drawn above may belong to another family (sweeps)
+                s = Script::new("C16", "pipe");
+                crate::props_pipe::base_cfg(rng, &mut s, true);
+                crate::props_pipe::checksum_family(rng, &mut s);
+            }
             s.prop = "C16".into();
             s.set("clauses", PC_C02 | PC_C16);
             if rng.chance(1, 2) {
